@@ -100,6 +100,12 @@ func (p *HTTPProxy) ServeHTTPWithUpstream(
 		r = r.WithContext(ctx)
 	}
 
+	// The reverse proxy strips the headers listed in 'Connection' as
+	// hop-by-hop. Piko's own routing headers must reach the next node (or the
+	// request could be forwarded again, or routed by a different endpoint),
+	// so don't let the client declare them hop-by-hop.
+	removeConnectionOptions(r.Header, "x-piko-forward", "x-piko-endpoint")
+
 	r.Header.Set("x-piko-forward", "true")
 
 	r = r.WithContext(context.WithValue(r.Context(), endpointContextKey, endpointID))
@@ -108,6 +114,34 @@ func (p *HTTPProxy) ServeHTTPWithUpstream(
 	r = r.WithContext(context.WithValue(r.Context(), upstreamContextKey, upstream))
 
 	p.proxy.ServeHTTP(w, r)
+}
+
+// removeConnectionOptions removes the given header names from the options
+// listed in the 'Connection' header.
+func removeConnectionOptions(h http.Header, names ...string) {
+	values := h.Values("Connection")
+	if len(values) == 0 {
+		return
+	}
+	var options []string
+	for _, v := range values {
+		for _, option := range strings.Split(v, ",") {
+			option = strings.TrimSpace(option)
+			remove := option == ""
+			for _, name := range names {
+				if strings.EqualFold(option, name) {
+					remove = true
+				}
+			}
+			if !remove {
+				options = append(options, option)
+			}
+		}
+	}
+	h.Del("Connection")
+	if len(options) > 0 {
+		h.Set("Connection", strings.Join(options, ", "))
+	}
 }
 
 func (p *HTTPProxy) dialUpstream(ctx context.Context, _, _ string) (net.Conn, error) {
